@@ -66,6 +66,16 @@ theorem c01_header_roundtrip (h : Header) (hwf : wfH h = true) (r : Header) (tai
   · rw [hdrUnmarshal_wire h hwf, hdrWire_length h hwf]
   · intro hx; simp [decoded, hx]
 
+/-- the header round trip with the quantifiers in the order other proofs consume it (one byte
+    string for all receivers) -/
+theorem c01_header_roundtrip_all (h : Header) (hwf : wfH h = true) :
+    ∃ bs, hdrMarshal h = .ok bs ∧ bs.length = hdrMarshalSize h ∧
+      ∀ r : Header, ∃ h', hdrUnmarshal r bs = .ok (h', bs.length) ∧ canonH h' = canonH h := by
+  refine ⟨hdrWire h, hdrMarshal_wf h hwf, hdrWire_length h hwf, fun r => ⟨decoded r h, ?_, canonH_decoded r h⟩⟩
+  have := hdrUnmarshal_wire h hwf r []
+  rw [List.append_nil] at this
+  rw [this, hdrWire_length h hwf]
+
 /-- The wire image, explicitly: fixed part, CSRCs, extension block (profile, word count,
     elements, zero padding to a word boundary), payload, RTP padding (zeros and the count). -/
 theorem c01_wire_form (p : Packet) (hwf : wfP p = true) :
